@@ -162,9 +162,9 @@ def audit(ctx, module, lean_rel):
     rc, out, err = sh(["lake", "env", "lean", f], cwd=LEAN, timeout=1200)
     text = out + err
     seen = {}
-    for m in re.finditer(r"'([^']+)' depends on axioms: \[([^\]]*)\]", text, re.S):
+    for m in re.finditer(r"'(\S+)' depends on axioms: \[([^\]]*)\]", text, re.S):
         seen[m.group(1)] = {a.strip() for a in m.group(2).replace("\n", " ").split(",") if a.strip()}
-    for m in re.finditer(r"'([^']+)' does not depend on any axioms", text):
+    for m in re.finditer(r"'(\S+)' does not depend on any axioms", text):
         seen[m.group(1)] = set()
     axioms_used = set()
     for n in names:
